@@ -321,6 +321,11 @@ def run(pid, tier, seed, sdir, replay, t0):
     if harness_bugs:
         raise vf.NoVerdict("the harness's own output failed a HARNESS.* monitor (a defect of the machinery, not of the library): %s"
                            % json.dumps(harness_bugs[:3]))
+    drift = [f for f in fails if str(f.get("mon", "")).startswith("DRIFT.")]
+    fails = [f for f in fails if not str(f.get("mon", "")).startswith("DRIFT.")]
+    for w in sorted({f["info"]["what"] for f in drift}):
+        n = sum(1 for f in drift if f["info"]["what"] == w)
+        print("MODEL-DRIFT property=%s (no verdict depends on it) %s (%d attempts)" % (pid, w, n))
     viol, knownhits = [], {}
     for f in fails:
         k = match_known(pid, f, known)
@@ -371,6 +376,8 @@ def run(pid, tier, seed, sdir, replay, t0):
         "monitors": sorted({p for part in parts for p in part["props"]}),
         "monitor_failures": len(fails), "known_finding_instances": sum(n for _, n in knownhits.values()),
         "race_reports": sum(r["races"] for r in results),
+        "model_drift_failures": len(drift),
+        "hook_traced_attempts": sum(1 for b in blocks for a in b.get("attempts", []) if isinstance(a, dict) and a.get("hookTrace")),
         "model_checking": mc_notes,
         "checker_cmd": "java -cp tla2tools.jar tlc2.TLC -config <cfg> {%s}.tla" % ", ".join(
             sorted({part["trace_module"] for part in parts} | {s["module"] for s in P.get("mc", [])})),
@@ -507,6 +514,7 @@ REGISTRY = {
                      "at boundary and random instants, both signs of TIME/TIME2 up to 838:59:59, zero dates and the zero timestamp; the harness "
                      "process is run once per zone"),
     "C13": dict(parts=[dict(mode="c13", trace_module="Trace_Codec", trace_cfg="Trace_Codec.cfg", props=["C13"], block_ev=["case"]),
+                       dict(mode="c13r", trace_module="Trace_Codec", trace_cfg="Trace_Codec.cfg", props=["C13"], block_ev=["case"]),
                        dict(mode="c13s", trace_module="Trace_Stream", trace_cfg="Trace_Stream.cfg", props=["C13"])],
                 mc=[MC_CELLSPEC], assumptions=CODEC_ASSUME,
                 rule="case = CHAR/BINARY (max 0..1023 bytes), VARCHAR (0..65535), BLOB/GEOMETRY (1..4 length bytes) x actual lengths "
